@@ -38,7 +38,8 @@ package preprocessor
 //@   after RemoveChild(GetParent())#4: handled = rangeindex
 //@   loop range invariant [gate] rangeindex >= 0 && handled != rangeindex ==> inScope(items[rangeindex]) // C05: never sends a request for a URL outside the operator's scope ... applies equally to seeds, redirect targets and embedded assets
 //@   assert SetRequest(GetURL())#1: [own-request] http.reqTarget(req) == models.urlKey(items[i].url) // C05: the request attached to a node is built from that node's own canonical URL
-//@   loop i invariant [kept-fresh] @C08 -1 <= i && i < len(items) && forall(j, i+1, len(items), items[j] != nil && items[j].status == models.ItemFresh) && distinctItems(items) // C08: any item checked afterwards with the same canonical URL is skipped rather than fetched again (nodes the seencheck marked are dropped from the list, every one of them)
+//@   loop i invariant [kept-fresh] @C08 -1 <= i && i < len(items) && forall(j, i+1, len(items), items[j] != nil && items[j].status == models.ItemFresh) // C08: any item checked afterwards with the same canonical URL is skipped rather than fetched again (nodes the seencheck marked are dropped from the list, every one of them)
+//@   loop i invariant [distinct] @C08 distinctItems(items)
 //@   assert NewRequest(?)#1: [fresh-only] @C08 items[i].status == models.ItemFresh // C08: a request is built only for nodes that are still fresh after the seencheck
 //@   loop range#2 invariant [rest-fresh] @C08 -1 <= rangeindex && forall(j, rangeindex+1, len(items), items[j] != nil && items[j].status == models.ItemFresh) && distinctItems(items)
 //@   loop range invariant [cfg] seencheck.globalSeencheck == old(seencheck.globalSeencheck) && seencheck.globalSeencheck.Count == old(seencheck.globalSeencheck.Count) && config.config != nil && seed != nil && models.ErrNotASeed != nil && ErrUnsupportedScheme != nil && ErrUnsupportedHost != nil && (config.config.UseHQ ==> hq.globalHQ != nil && hq.globalHQ.client != nil)
